@@ -108,9 +108,16 @@ impl BuildOptimiser {
     }
 
     pub fn build(&self) -> MCOptimiser {
+        // An inner loop always has at least one step, so that a request for zero steps (or
+        // zero inner steps) does not end in a division by zero when counting the loops.
+        let inner_steps = u64::max(1, u64::min(self.inner_steps, self.steps));
+        // The temperature is reduced once for every inner loop, not once for every step.
+        let loops = u64::max(1, self.steps / inner_steps);
         let kt_ratio = match (self.kt_ratio, self.kt_finish) {
             (Some(ratio), _) => 1. - ratio,
-            (None, Some(finish)) => f64::powf(finish / self.kt_start, 1. / self.steps as f64),
+            // A temperature of zero stays at zero, no ratio takes it to kt_finish.
+            (None, Some(_)) if self.kt_start == 0. => 1.,
+            (None, Some(finish)) => f64::powf(finish / self.kt_start, 1. / loops as f64),
             (None, None) => 0.1,
         };
         debug!("Setting kt_ratio to: {}", kt_ratio);
@@ -124,9 +131,7 @@ impl BuildOptimiser {
             kt_ratio,
             max_step_size: self.max_step_size,
             steps: self.steps,
-            // An inner loop always has at least one step, so that a request for zero steps (or
-            // zero inner steps) does not end in a division by zero when counting the loops.
-            inner_steps: u64::max(1, u64::min(self.inner_steps, self.steps)),
+            inner_steps,
             seed,
             convergence: self.convergence,
         }
